@@ -192,6 +192,30 @@ func c17(c *Ctx) {
 			r.Check(ok, "C17.Y4", arm.Name(), "MaybeDeleteSession(msg.Session) after ProcessMessage", c.P.Pos(call.Pos()), "on every path to the return",
 				"an entry is processed without MaybeDeleteSession(msg.Session) afterwards: sessions marked deleted stay in the session table (and in snapshots)")
 		}
+		// Y3b: a committed entry is processed on nothing but the entry's type and the existence of its session (the marker
+		// update's error for client lines): no further condition — in particular none that reads node-local or
+		// non-replicated values — decides whether ProcessMessage runs
+		for _, call := range callsIn(arm, isPM) {
+			v := g.VertexOf(call)
+			extra := ""
+			for _, cl := range c.clausesAt(arm, g, v) {
+				for _, l := range cl {
+					okLit := false
+					// err == nil of a look-up / marker update
+					if x, isNil, ok := nilCompare(info, cfgx.Fact{Expr: l.E, Val: l.Pos}); ok && isNil {
+						if types.Identical(info.TypeOf(x), types.Universe.Lookup("error").Type()) {
+							okLit = true
+						}
+					}
+					if !okLit {
+						extra = astx.Str(l.E)
+					}
+				}
+			}
+			// tagged switch facts (msg.Type) are not in clausesAt; everything else counts
+			r.Check(extra == "", "C17.Y3", arm.Name(), "a committed entry is processed whenever its session exists", c.P.Pos(call.Pos()), "ProcessMessage dominated only by the type switch and err == nil tests",
+				"whether a committed entry is processed depends on a further condition ("+extra+"): if that condition reads anything that is not replicated state (a value of this FSM instance, a clock) one replica ends the session and another keeps it")
+		}
 		for _, call := range callsIn(arm, isSLP) {
 			ok := len(call.Args) == 1 && msgParam != nil && deps.Of(call.Args[0])[msgParam]
 			r.Check(ok, "C17.Y1", arm.Name(), "lastProcessed taken from the entry", c.P.Pos(call.Pos()), "argument derives from msg", "SetLastProcessed is not given an id taken from the entry")
@@ -704,10 +728,85 @@ func c17(c *Ctx) {
 			}
 			r.Check(extra == "", "C17.Y4", mds.Name(), "the sweep depends only on the acting session's role", c.P.Pos(sweep.Pos()), "dominating conditions: look-up succeeded, s.Server || s.Operator",
 				"whether sessions marked deleted are swept depends on a further condition ("+extra+"): e.g. when the acting services link is itself marked deleted the function returns before the sweep, and the pseudo-clients it ended stay in the session table and in snapshots")
+			// every dominating condition holds in its positive sense: the look-up succeeded, the role test is true
+			negated := ""
+			for _, cl := range c.clausesAt(mds, g, v) {
+				for _, l := range cl {
+					if !l.Pos {
+						negated = "!" + astx.Str(l.E)
+					}
+				}
+			}
+			r.Check(negated == "", "C17.Y4", mds.Name(), "the sweep runs when the look-up succeeded and the role test holds", c.P.Pos(sweep.Pos()), "no dominating condition is taken on its false edge",
+				"the sweep of sessions marked deleted sits on the false edge of "+negated+": it runs for ordinary users and not for operators / services (or only when the acting session is unknown), so sessions ended by KILL or by services stay in the session table with a working secret")
 			okCover := !guarded || ((!needOper || hasOper) && (!needServer || hasServer))
 			r.Check(okCover, "C17.Y4", mds.Name(), "sweep runs for every role that can end another session", c.P.Pos(sweep.Pos()), "guard covers s.Operator (KILL) and s.Server (services)",
 				"MaybeDeleteSession sweeps sessions marked deleted only for some of the roles that can end somebody else's session: a session killed by the uncovered role stays in the session table, keeps its secret valid and is written into snapshots")
 		}
+	}
+	// the acting session itself leaves the table when it was marked deleted: MaybeDeleteSession removes the entry under its
+	// own parameter on the edge <looked-up session>.deleted
+	if mds := c.P.Func("ircserver.(*IRCServer).MaybeDeleteSession"); mds != nil && mds.Body() != nil {
+		info := mds.Info()
+		g := c.Graph(mds)
+		var param types.Object
+		for _, fld := range mds.FuncType().Params.List {
+			for _, nm := range fld.Names {
+				param = info.Defs[nm]
+			}
+		}
+		okOwn := false
+		for _, v := range g.Nodes() {
+			for _, call := range astx.Calls(v.Node, false) {
+				if astx.Builtin(info, call) != "delete" || len(call.Args) != 2 {
+					continue
+				}
+				sel, ok := ast.Unparen(call.Args[0]).(*ast.SelectorExpr)
+				if !ok || astx.FieldSel(info, sel) != sessions {
+					continue
+				}
+				if id, ok := ast.Unparen(call.Args[1]).(*ast.Ident); ok && astx.Obj(info, id) == param {
+					// under <s>.deleted (true) and the successful look-up, nothing negated
+					pos := true
+					for _, cl := range c.clausesAt(mds, g, v.ID) {
+						for _, l := range cl {
+							if !l.Pos {
+								pos = false
+							}
+						}
+					}
+					if pos {
+						okOwn = true
+					}
+				}
+			}
+		}
+		r.Check(okOwn, "C17.Y4", mds.Name(), "the acting session is removed once it is marked deleted", c.P.Pos(mds.Node().Pos()), "delete(i.sessions, <parameter>) under <session>.deleted",
+			"MaybeDeleteSession no longer removes the acting session when it was marked deleted (QUIT, ping timeout, DELETE request): the ended session stays in the session table, its secret keeps working and it is written into snapshots")
+	}
+	// the "not yet seen" answer of GetSession compares the asked id with lastProcessed: SetLastProcessed stores its argument
+	if slp := c.MustFunc("ircserver.(*IRCServer).SetLastProcessed"); slp != nil && slp.Body() != nil {
+		info := slp.Info()
+		lpF := c.P.Field("ircserver", "IRCServer", "lastProcessed")
+		var param types.Object
+		for _, fld := range slp.FuncType().Params.List {
+			for _, nm := range fld.Names {
+				param = info.Defs[nm]
+			}
+		}
+		okSet := false
+		ast.Inspect(slp.Body(), func(n ast.Node) bool {
+			if as, ok := n.(*ast.AssignStmt); ok && len(as.Lhs) == 1 && len(as.Rhs) == 1 {
+				if se, ok := ast.Unparen(as.Lhs[0]).(*ast.SelectorExpr); ok && lpF != nil && astx.FieldSel(info, se) == lpF {
+					if id, ok := ast.Unparen(as.Rhs[0]).(*ast.Ident); ok && astx.Obj(info, id) == param {
+						okSet = true
+					}
+				}
+			}
+			return true
+		})
+		r.Check(okSet, "C17.Y2", slp.Name(), "the last processed id is recorded", c.P.Pos(slp.Node().Pos()), "i.lastProcessed = <parameter>",
+			"SetLastProcessed no longer stores the id: GetSession answers 'not yet seen' for every session id above the stale value for ever, so requests for ended sessions are proxied / retried instead of refused with 404")
 	}
 	// who ends sessions: listed for evidence
 	var enders []string
